@@ -64,22 +64,33 @@ def real_binop(eng, t, a, b):
 
 
 def crc_term(eng, c):
-    """CRC as an uninterpreted function of the hashed bytes, with pairwise injectivity axioms (no collisions)"""
-    n = len(c.items)
-    if n == 0:
-        return eng.lift(0)
-    arg = z3.Concat(*[_byte8(eng, x) for x in reversed(c.items)]) if n > 1 else _byte8(eng, c.items[0])
-    H = z3.Function("CRC_%d" % n, z3.BitVecSort(8 * n), z3.BitVecSort(32))
-    reg = eng.__dict__.setdefault("crc_args", {})
-    lst = reg.setdefault(n, [])
-    if not any(arg.eq(o) for o in lst):
-        for o in lst:
-            eng.axioms.append(z3.Implies(H(arg) == H(o), arg == o))
-        lst.append(arg)
-    h = H(arg)
+    """CRC32 abstraction: one 32-bit symbol per hashed content, with  symbol equality <=> content equality
+    (i.e. CRC32 is assumed collision-free on the byte strings in play); concrete content gets the real zlib value"""
+    import zlib
+
+    items = c.items
+    if all(isinstance(x, int) and not isinstance(x, bool) for x in items):
+        return zlib.crc32(bytes(items)) & 0xFFFFFFFF
+    key = tuple(_ikey(x) for x in items)
+    reg = eng.__dict__.setdefault("crc_reg", {})
+    if key not in reg:
+        sym = z3.BitVec("crc!%d" % len(reg), 32)
+        for k2, (sym2, items2) in reg.items():
+            same = _seq_eq(eng, items, items2) if len(items) == len(items2) else False
+            eng.add_axiom((sym == sym2) == (same if is_sym(same) else z3.BoolVal(same)))
+        reg[key] = (sym, list(items))
+    h = reg[key][0]
     if eng.intmode == "bv":
         return eng._rec(z3.ZeroExt(eng.W - 32, h), 32)
     return z3.BV2Int(h)
+
+
+def _ikey(x):
+    if type(x).__name__ == "Tok":
+        return ("T", _ikey(x.value))
+    if is_sym(x):
+        return ("t", x.get_id())
+    return ("c", x)
 
 
 def _byte8(eng, x):
@@ -97,10 +108,9 @@ def compare(eng, t, a, b):
         else:
             r = _seq_eq(eng, a.items, b.items)
         return r if t is ast.Eq else _neg(r)
-    if isinstance(a, CrcVal):
-        a = crc_term(eng, a)
-    if isinstance(b, CrcVal):
-        b = crc_term(eng, b)
+    if isinstance(a, CrcVal) or isinstance(b, CrcVal):
+        a = crc_term(eng, a) if isinstance(a, CrcVal) else a
+        b = crc_term(eng, b) if isinstance(b, CrcVal) else b
         return eng.compare(t(), a, b)
     if isinstance(a, SBytes) and isinstance(b, SBytes) and t in (ast.Eq, ast.NotEq):
         if len(a) != len(b):
@@ -141,6 +151,11 @@ def _neg(r):
 def _seq_eq(eng, xs, ys):
     conds = []
     for x, y in zip(xs, ys):
+        tx, ty = type(x).__name__ == "Tok", type(y).__name__ == "Tok"
+        if tx or ty:
+            if not (tx and ty):
+                return False
+            x, y = x.value, y.value
         if not is_sym(x) and not is_sym(y):
             if x != y:
                 return False
@@ -390,6 +405,8 @@ def to_bytes(eng, v, size, order="little", signed=False):
 
 def from_bytes(eng, b, order="little"):
     items = list(b.items)
+    if any(type(x).__name__ == "Tok" for x in items):
+        raise ModelRaise("Desync")
     if order == "big":
         items.reverse()
     acc = 0
@@ -596,6 +613,10 @@ def call_method(eng, obj, name, args, kw):
         if name == "seek":
             return file_seek(eng, obj, *args)
         if name == "tell":
+            from vf.pysym import tokens
+
+            if tokens.has_tok(obj.items[:obj.pos]):
+                return tokens.byte_len(eng, obj.items[:obj.pos])
             return obj.pos
         if name == "getvalue":
             return SBytes(obj.items)
@@ -798,6 +819,11 @@ def call_native(eng, fn, args, kw):
         return h(eng, *args, **kw)
     if isinstance(fn, type) and issubclass(fn, BaseException):
         return ModelRaise(fn.__name__, args, cls=fn)
+    if _pure(fn) and all(_concrete(a) for a in args) and all(_concrete(v) for v in kw.values()):
+        try:
+            return eng.wrap_real(fn(*[_unlift(a) for a in args], **kw))
+        except Exception as e:  # noqa  the pure callee itself raised: propagate as a modelled exception
+            raise ModelRaise(type(e).__name__, e.args, cls=type(e))
     if callable(fn) and isinstance(fn, Native):
         return fn(eng, *args, **kw)
     name = builtins.getattr(fn, "__qualname__", None) or builtins.getattr(fn, "__name__", repr(fn))
@@ -904,6 +930,8 @@ def _ord(eng, b):
     if isinstance(b, (SBytes,)):
         if len(b) != 1:
             raise ModelRaise("TypeError", cls=TypeError)
+        if type(b.items[0]).__name__ == "Tok":
+            raise ModelRaise("Desync")
         return b.items[0]
     if isinstance(b, SStr):
         if len(b) != 1:
@@ -1010,6 +1038,49 @@ def _bytesio(eng, *args):
     return SFile()
 
 
+import pathlib
+import posixpath
+import re
+
+_PURE_FUNCS = {pathlib.Path, pathlib.PurePosixPath, pathlib.PurePath, pathlib.PosixPath, os.fspath, os.path.join,
+               os.path.basename, os.path.dirname, re.match, re.compile, os.path.splitext, os.path.isabs, os.path.normpath, posixpath.join,
+               str.startswith, str.endswith}
+_PURE_PATH_METHODS = {"as_posix", "joinpath", "is_absolute", "relative_to", "with_name", "with_suffix", "__str__",
+                      "__truediv__", "__fspath__", "match", "is_relative_to"}
+
+
+def _pure(fn):
+    try:
+        if fn in _PURE_FUNCS:
+            return True
+    except TypeError:
+        return False
+    slf = builtins.getattr(fn, "__self__", None)
+    if isinstance(slf, pathlib.PurePath) and fn.__name__ in _PURE_PATH_METHODS:
+        return True
+    if isinstance(slf, str):
+        return True
+    return False
+
+
+def _concrete(a):
+    if isinstance(a, SBytes):
+        return a.concrete()
+    if isinstance(a, (list, tuple)):
+        return all(_concrete(x) for x in a)
+    return isinstance(a, (str, int, float, bytes, pathlib.PurePath)) or a is None
+
+
+def _unlift(a):
+    if isinstance(a, SBytes):
+        return a.tobytes()
+    if isinstance(a, list):
+        return [_unlift(x) for x in a]
+    if isinstance(a, tuple):
+        return tuple(_unlift(x) for x in a)
+    return a
+
+
 NATIVE = {}
 
 
@@ -1055,3 +1126,21 @@ reg(binascii.unhexlify, lambda eng, s: SBytes(list(binascii.unhexlify(s))))
 reg(io.BytesIO, _bytesio)
 reg(int.from_bytes, lambda eng, b, byteorder="big", **k: from_bytes(eng, b, byteorder))
 reg(print, lambda eng, *a, **k: None)
+
+# ---- stat module (pure bit tests on the mode word)
+import stat as _stat
+
+
+def _fmt_is(v):
+    return lambda eng, m: eng.compare(ast.Eq(), eng.binop(ast.BitAnd(), m, 0o170000), v)
+
+
+reg(_stat.S_IFMT, lambda eng, m: eng.binop(ast.BitAnd(), m, 0o170000))
+reg(_stat.S_IMODE, lambda eng, m: eng.binop(ast.BitAnd(), m, 0o7777))
+reg(_stat.S_ISLNK, _fmt_is(0o120000))
+reg(_stat.S_ISDIR, _fmt_is(0o040000))
+reg(_stat.S_ISREG, _fmt_is(0o100000))
+reg(_stat.S_ISSOCK, _fmt_is(0o140000))
+reg(_stat.S_ISFIFO, _fmt_is(0o010000))
+reg(_stat.S_ISCHR, _fmt_is(0o020000))
+reg(_stat.S_ISBLK, _fmt_is(0o060000))
